@@ -6,6 +6,7 @@
 #include "tun_access.h"   // C12: packet tunnel gateways + scripted packet transport
 #include "regex/StringMatcher.h"   // C15 block below
 #include "regex/QueryFilter.h"   // C14
+#include "reflector/DataNode.h"   // C13: MUSCLE_MAX_NODE_DEPTH (subtree clone / restore stop there)
 #include "util/TimeUtilityFunctions.h"
 #include "util/Hashtable.h"
 #include "util/String.h"
@@ -140,6 +141,7 @@ static void tunnelConstants()
    K("miniChunkHeaderSize",      miniChunk);
    K("miniPacketIdBits",         miniIdMod);
    K("muscleNoLimit",            (uint32)MUSCLE_NO_LIMIT);
+   K("maxNodeDepth",             (uint32)MUSCLE_MAX_NODE_DEPTH);
    printf("/- tunable (model parameter) -/\n");
    K("tunnelMaxReceiveStates",   cap);
 }
